@@ -225,6 +225,7 @@ func Tree.Add
   requires n != nil && inv(n)
   ensures[inv]  inv(n) && n.compare == old(n.compare)
   ensures[cnt]  forall x T :: {cnt(view(n.root), x)} cnt(view(n.root), x) == cnt(old(view(n.root)), x) + b2i(x == value)
+  ensures[size] n.count == old(n.count) + 1
   assigns fields(n)
 
 func Tree.Remove
@@ -246,6 +247,9 @@ func Tree.Clear
 
 func Tree.WalkPreOrder
   property C01
+  mode seqloop
+  opt seqlen size(view(n.root))
+  opt seqat nthpre(view(n.root), i)
   owns n.root
   requires n != nil
   ensures[len]   loglen(walker) == old(loglen(walker)) + size(view(n.root))
@@ -255,6 +259,9 @@ func Tree.WalkPreOrder
 
 func Tree.WalkInOrder
   property C01
+  mode seqloop
+  opt seqlen size(view(n.root))
+  opt seqat nthin(view(n.root), i)
   owns n.root
   requires n != nil
   ensures[len]   loglen(walker) == old(loglen(walker)) + size(view(n.root))
@@ -264,6 +271,9 @@ func Tree.WalkInOrder
 
 func Tree.WalkPostOrder
   property C01
+  mode seqloop
+  opt seqlen size(view(n.root))
+  opt seqat nthpost(view(n.root), i)
   owns n.root
   requires n != nil
   ensures[len]   loglen(walker) == old(loglen(walker)) + size(view(n.root))
@@ -294,4 +304,54 @@ spec minsize(k int) int
 spec msok(t Tree) bool = size(t) >= minsize(hgt(t))
 spec hh(l Tree, v T, h int, r Tree) int = hgt(Node(l, v, h, r))
 lemma C02 minsize_step(l Tree, v T, h int, r Tree): (minsize(-1) == 0 && minsize(0) == 1 && (hh(l, v, h, r) >= 1 ==> minsize(hh(l, v, h, r)) == minsize(hh(l, v, h, r) - 1) + minsize(hh(l, v, h, r) - 2) + 1 && minsize(hh(l, v, h, r) - 1) >= minsize(hh(l, v, h, r) - 2)) && avl(Node(l, v, h, r)) && msok(l) && msok(r)) ==> msok(Node(l, v, h, r))
+
+// the multiset of the first k values of the pre-order listing
+spec cntpre(t Tree, k int, x T) int
+axiom cntpre_zero(t, x): cntpre(t, 0, x) == 0
+axiom cntpre_step(t, k, x): k >= 0 ==> cntpre(t, k+1, x) == cntpre(t, k, x) + b2i(nthpre(t, k) == x)
+
+// Clone: works for every size, the result satisfies the Tree invariant, has as many values as the original, holds
+// exactly the multiset of the original's pre-order listing, and shares no node with the original (both trees
+// are owned, separately, at the end; the original's value is unchanged)
+func Tree.Clone
+  property C01, C02
+  owns n.root
+  requires n != nil && inv(n)
+  ensures[inv]      inv(result)
+  ensures[size]     result.count == n.count
+  ensures[orig]     view(n.root) == old(view(n.root)) && inv(n)
+  ensures[separate] owned(n.root) && owned(result.root)
+  ensures[contents] forall x T :: {cnt(view(result.root), x)} cnt(view(result.root), x) == cntpre(view(n.root), size(view(n.root)), x)
+  rangecall 0 owns clone.root
+  rangecall 0 use forall x T :: {cntpre(view(n.root), 0, x)} cntpre_zero(view(n.root), x)
+  rangecall 0 use forall x T :: {cntpre(view(n.root), niter + 1, x)} cntpre_step(view(n.root), niter, x)
+  rangecall 0 invariant clone.compare == n.compare && good(view(clone.root)) && clone.count == size(view(clone.root)) && clone.count == niter
+  rangecall 0 invariant forall x T :: {cnt(view(clone.root), x)} cnt(view(clone.root), x) == cntpre(view(n.root), niter, x)
+
+func Tree.SlicePreOrder
+  property C01
+  owns n.root
+  requires n != nil && inv(n)
+  ensures[len]   len(result) == size(view(n.root)) && fresh(result)
+  ensures[order] forall i :: {nthpre(view(n.root), i)} 0 <= i && i < len(result) ==> result[i] == nthpre(view(n.root), i)
+  rangecall 0 invariant len(slice) == niter && fresh(slice)
+  rangecall 0 invariant forall i :: {nthpre(view(n.root), i)} 0 <= i && i < niter ==> slice[i] == nthpre(view(n.root), i)
+
+func Tree.SliceInOrder
+  property C01
+  owns n.root
+  requires n != nil && inv(n)
+  ensures[len]   len(result) == size(view(n.root)) && fresh(result)
+  ensures[order] forall i :: {nthin(view(n.root), i)} 0 <= i && i < len(result) ==> result[i] == nthin(view(n.root), i)
+  rangecall 0 invariant len(slice) == niter && fresh(slice)
+  rangecall 0 invariant forall i :: {nthin(view(n.root), i)} 0 <= i && i < niter ==> slice[i] == nthin(view(n.root), i)
+
+func Tree.SlicePostOrder
+  property C01
+  owns n.root
+  requires n != nil && inv(n)
+  ensures[len]   len(result) == size(view(n.root)) && fresh(result)
+  ensures[order] forall i :: {nthpost(view(n.root), i)} 0 <= i && i < len(result) ==> result[i] == nthpost(view(n.root), i)
+  rangecall 0 invariant len(slice) == niter && fresh(slice)
+  rangecall 0 invariant forall i :: {nthpost(view(n.root), i)} 0 <= i && i < niter ==> slice[i] == nthpost(view(n.root), i)
 @*/
